@@ -362,6 +362,17 @@ class Assembler:
             edits.append((ct[it['tok_qual']].start, ct[it['tok_qual']].start, 'pub ', 'rewrite'))
             self.meta['rewrites'].append(dict(kind='private-item-as-pub', where=what))
         if kind in ('const', 'static'):
+            # `const X: &[u8] = b"..";` -> `const X: &'static [u8; N] = &[..];` (the slice coercion in a const initialiser is an exec call Verus rejects;
+            # every use site coerces the array reference back to a slice)
+            toks = ct[it['tok_kw']:it['tok_end'] + 1]
+            texts = [t.text for t in toks]
+            bl = [t for t in toks if t.kind == 'str' and t.text.startswith('b"')]
+            if bl and ''.join(texts[texts.index(':') + 1:texts.index('=')]) == '&[u8]':
+                n = bytestr_to_array(bl[0].text).count("b'")
+                k = it['tok_kw'] + texts.index('[')
+                kend = match_close(ct, k)
+                edits.append((ct[kend].start, ct[kend].start, '; %d' % n, 'rewrite'))
+                self.meta['rewrites'].append(dict(kind='const-bytes-as-array-ref', where=what, n=n))
             # `: &str` / `: &[u8]` -> 'static (Verus wants the lifetime spelled inside verus!)
             for i in range(it['tok_kw'], it['tok_end']):
                 if ct[i].text == '&' and ct[i + 1].kind != 'lifetime' and ct[i - 1].text == ':':
@@ -426,6 +437,11 @@ class Assembler:
         self._attr_edits(sf, it['tok_kw'], it['tok_end'] + 1, edits, what)
         self._auto_respell(sf, it['tok_kw'], it['tok_end'] + 1, edits, what)
         self._vis_edit(sf, it, edits, what)
+        in_trait = ' :: ' in locator and (' for ' in norm(locator.rsplit(' :: ', 1)[0]) or locator.strip().startswith('trait '))
+        if ct[it['tok_qual']].text != 'pub' and not in_trait:
+            # the crate sets visibility through #[qualifiers(..)] attributes (dropped); inside the unit everything is pub
+            edits.append((ct[it['tok_qual']].start, ct[it['tok_qual']].start, 'pub ', 'rewrite'))
+            self.meta['rewrites'].append(dict(kind='private-fn-as-pub', where=what))
 
         def mk_lines(lines, clause_kind):
             out = []
